@@ -203,6 +203,8 @@ def gen_history(rng, cat, modifiers, tier):
             args = {}
             if e == 'assign_connectivity':
                 args = {'kind': rng.choice(['roll', 'swap01', 'swap_first'])}
+            if e in ('rotation', 'translation'):
+                args = {'reset': rng.random() < 0.6}
             hist.append(e_op(o, e, args))
         elif r < 0.90:
             hist.append(e_op(o, rng.choice(RUNNABLE_WRITERS)))
@@ -279,7 +281,7 @@ def pins(cfgq):
     invalidate is pinned to the set of memoised methods it was triaged with, so that a newly
     memoised method is never covered by it"""
     memo = sorted((q, str(c['lru'])) for q, c in cfgq.items() if c['lru'] is not None)
-    slots = sorted((q, str(c['slot'])) for q, c in cfgq.items() if c['slot'] is not None)
+    slots = sorted((q, c['slot'][0]) for q, c in cfgq.items() if c['slot'] is not None)
     return lib.sha(json.dumps(memo))[:12], lib.sha(json.dumps(slots))[:12]
 
 
@@ -552,7 +554,8 @@ def witness_histories(ctx, fails, cat, cfgq, effects):
             for m in mesh_for(a, e=b):
                 for kw in cat.get(a, (ALL, [{}]))[1][:2]:
                     args = {'kind': 'roll' if len(m['elements'][m['kind']]['ids']) > 1 else 'swap01'} \
-                        if b == 'assign_connectivity' else {}
+                        if b == 'assign_connectivity' else ({'reset': True} if b in ('rotation', 'translation')
+                                                            else {})
                     h = [{'op': 'new', 'o': 0, 'mesh': m}, q_op(0, a, kw), e_op(0, b, args), q_op(0, a, kw)]
                     out.append((f, h))
                     if pre_of.get(b) and (a in pre_of[b] or k == 'stale-slot'):
@@ -873,7 +876,11 @@ def main(ctx):
 
 def replay(path):
     rp = json.loads(Path(path).read_text())
-    ctx = lib.Ctx('C19', 'quick')
+
+    class _Scratch:                      # not lib.Ctx: constructing one removes the replay files
+        scratch = lib.BUILD / 'C19'
+    ctx = _Scratch()
+    ctx.scratch.mkdir(parents=True, exist_ok=True)
     hist = rp['case'].get('history')
     if not hist:
         print('nothing to replay on the implementation:', json.dumps(rp, indent=1)[:2000])
